@@ -124,6 +124,19 @@ def _brandes(prog, rep, f, kind, edges):
                 why = 'free slots must receive the nodes that were not reached from this source (%s), got %s' % (unreach_src[0], norm(s.value))
     if kind == 'wei' or others:
         rep.ob('Q.unreachable-fill-matches-free-slots', f, tail if tail is not None else '%s[:%s + 1], = unreachable' % (Q, q), ok_slice and len(others) == 1, why, line=loop.lineno)
+    if kind == 'bin' and others and ok_slice:
+        # the fill may be guarded only by a test that holds whenever at least one slot is still free (q + 1 >= 1)
+        gs = [(t, pol) for t, pol, knd, owner in pm.guards(others[0]) if any(owner is x for x in ast.walk(loop)) and knd == 'if']
+        okg, whyg = True, ''
+        for t, pol in gs:
+            acc = pol and any(m.match(t, pat) for pat in (
+                'np.any(np.logical_not(D))', 'np.any(D == 0)', 'not np.all(D)', 'np.any(~D)', '%s >= 0' % q, '%s > -1' % q, '%s + 1 > 0' % q, '0 <= %s' % q,
+                '-1 < %s' % q, '%s + 1 >= 1' % q, '%s + 1' % q, 'not D.all()'))
+            if not acc:
+                okg = False
+                whyg = ('after the search %s + 1 slots of %s are still free, one per unreachable node; under `%s` the fill is skipped although slots remain '
+                        '(e.g. exactly one unreachable node leaves %s == 0), and the stale slot content (node 0) is walked as if it had been reached' % (q, Q, norm(t), q))
+        rep.ob('Q.unreachable-fill-not-skipped-while-slots-are-free', f, gs[-1][0] if gs else others[0], okg, whyg, line=others[0].lineno)
     feats['unreachable-fill'] = ('free slots [:q+1] <- unreachable' if ok_slice else norm(others[0].targets[0])) if others else None
     # ---- dependency loop
     dep = [s for s in loop.body if isinstance(s, ast.For) and m.match(s.iter, '%s[:n - 1]' % Q)]
@@ -293,6 +306,9 @@ def variants(root):
         B('settled node recorded only when it has successors', fn, '                Q[q] = v\n                q -= 1\n                W, = np.where(G1[v, :])',
           '                W, = np.where(G1[v, :])\n                if W.size:\n                    Q[q] = v\n                    q -= 1', 'Q.')
     B('unreachable fill one short', 'edge_betweenness_bin', 'Q[:q + 1], = np.where(np.logical_not(D))', 'Q[:q], = np.where(np.logical_not(D))', 'Q.unreachable')
+    B('unreachable fill skipped for a single unreachable node', 'edge_betweenness_bin', 'if np.any(np.logical_not(D)):', 'if q > 0:', 'Q.unreachable-fill-not-skipped')
+    N('unreachable fill guarded by the slot counter', 'edge_betweenness_bin', 'if np.any(np.logical_not(D)):', 'if q >= 0:')
+    N('unreachable fill guarded by D == 0', 'edge_betweenness_bin', 'if np.any(np.logical_not(D)):', 'if np.any(D == 0):')
     B('edge increment differs from node increment', 'edge_betweenness_wei', 'EBC[v, w] += DPvw', 'EBC[v, w] += DPvw / 2', 'D.edge-gets')
     B('edge accumulated at transposed cell', 'edge_betweenness_bin', 'EBC[v, w] += DPvw', 'EBC[w, v] += DPvw', 'D.')
     B('first discovery adds', 'edge_betweenness_bin', '                        D[w] = 1\n                        NP[w] = NP[v]', '                        D[w] = 1\n                        NP[w] += NP[v] + 1', 'R.strict')
